@@ -107,7 +107,7 @@ def opsig(op):
         return "%s.%s%s" % (op[0], op[2], extra)
     if op[0] == "set_ref":
         return "set_ref.%s" % op[2]
-    if op[0] in ("append_dim", "write", "pvalues"):
+    if op[0] in ("append_dim", "write", "pvalues", "lookup"):
         return "%s.%s" % (op[0], op[2])
     return op[0]
 
@@ -261,6 +261,9 @@ def soak_histories():
         h += [["create", B, "data_arrays", "n1", [[1, 2], [3, 4]], "int16"],
               ["link", G, "data_arrays", arr("n1")],
               ["link", T, "references", arr("n1")],
+              ["lookup", G, "data_arrays", arr("n1")],
+              ["lookup", T, "references", arr("n1")],
+              ["lookup", G, "data_arrays", arr("sig")],
               ["create", B, "multi_tags", "n1", "n1"],
               ["set", arr("n1"), "label", "cycle%d" % cyc],
               ["create_feature", T, "n1", "Indexed"],
@@ -284,6 +287,8 @@ def soak_histories():
               ["create", S1 + ["sources", "n1"], "sources", "n1"],
               ["link", G, "sources", S1 + ["sources", "n1", "sources", "n1"]],
               ["link", T, "sources", S1 + ["sources", "n1"]],
+              ["lookup", T, "sources", S1 + ["sources", "n1"]],
+              ["lookup", T, "sources", S1],
               ["set_meta", S1 + ["sources", "n1"], ["sections", "sec", "sections", "sec"]],
               ["create", ["sections", "sec", "sections", "sec"], "props", "n1", [1, 2]],
               ["pvalues", ["sections", "sec", "sections", "sec", "props", "n1"], "extend", [5]],
